@@ -45,6 +45,10 @@ type Rates struct {
 	MaxDelay  int `json:"maxDelay"`  // microseconds
 	ElemNil   int `json:"elemNil"`   // per-mille of list elements that are nil (when the Go type allows)
 	ErrAndVal int `json:"errAndVal"` // per-mille of errors that also return a value
+	// field interceptor (salt "@~around"): per-mille of fields at which it fails / returns (nil, nil) / panics
+	AroundErr   int `json:"aroundErr,omitempty"`
+	AroundBlock int `json:"aroundBlock,omitempty"`
+	AroundPanic int `json:"aroundPanic,omitempty"`
 }
 
 type Plan struct {
@@ -240,6 +244,15 @@ func (s *State) decide(path string, salt string) (Outcome, uint64) {
 	o := Outcome{Kind: "value"}
 	k := int(h % 1000)
 	switch {
+	case salt == "@~around":
+		switch {
+		case k < r.AroundErr:
+			o = Outcome{Kind: "error", Msg: "A:" + path}
+		case k < r.AroundErr+r.AroundBlock:
+			o = Outcome{Kind: "block"}
+		case k < r.AroundErr+r.AroundBlock+r.AroundPanic:
+			o = Outcome{Kind: "panic", Msg: "AP:" + path}
+		}
 	case salt == "" && k < r.Err:
 		o = Outcome{Kind: "error", Msg: "E:" + path}
 	case salt == "" && k < r.Err+r.Nil:
@@ -764,4 +777,41 @@ func Method(ctx context.Context) (string, error) {
 	inv.Kind, inv.Val = "value", &V{K: "leaf", Text: string(b)}
 	s.record(inv)
 	return v, nil
+}
+
+
+// Around is a field interceptor (handler AroundFields / OperationContext.ResolverMiddleware): user code
+// wrapped around every field - schema directives and the resolver or struct read run inside `next`.
+func Around(ctx context.Context, next graphql.Resolver) (any, error) {
+	s := GetState(ctx)
+	fc := graphql.GetFieldContext(ctx)
+	if s == nil || fc == nil || strings.HasPrefix(fc.Field.Name, "__") {
+		return next(ctx)
+	}
+	path := PathString(fc.Path())
+	inv := Inv{Path: path, Hook: "directive:~around", Obj: fc.Object, Field: fc.Field.Name, Start: s.tick()}
+	o, _ := s.decide(path, "@~around")
+	if s.Schema.Subscription != nil && fc.Object == s.Schema.Subscription.Name {
+		// around the creation of a subscription's stream it only passes: a failure there is a request error
+		// (no stream), which the checks judge separately from event execution
+		o = Outcome{Kind: "value"}
+	}
+	wait(ctx, o)
+	switch o.Kind {
+	case "error":
+		inv.Kind, inv.Msg = "error", o.Msg
+		s.record(inv)
+		return nil, errors.New(o.Msg)
+	case "panic":
+		inv.Kind, inv.Msg = "panic", o.Msg
+		s.record(inv)
+		panic(o.Msg)
+	case "block":
+		inv.Kind = "block"
+		s.record(inv)
+		return nil, nil
+	}
+	inv.Kind = "value"
+	s.record(inv)
+	return next(ctx)
 }
